@@ -22,35 +22,7 @@ Inductive ccase :=
 Definition case_id (c : ccase) : N :=
   match c with CFor i _ _ | CToConfig i _ _ | CSorted i _ _ | CParse i _ _ | COverlap i _ _ _ | CFull i _ _ _ | CFullFor i _ _ _ => i end.
 
-Definition lN_eqb := list_eqb N.eqb.
-Definition opt_eqb {A} (e : A -> A -> bool) (a b : option A) : bool :=
-  match a, b with Some x, Some y => e x y | None, None => true | _, _ => false end.
-Definition bgpadv_eqb (a b : bgpadv) : bool :=
-  (ba_name a =? ba_name b) && (ba_agg4 a =? ba_agg4 b) && (ba_agg6 a =? ba_agg6 b) &&
-  (ba_lp a =? ba_lp b) && lN_eqb (ba_comms a) (ba_comms b) && lN_eqb (ba_nodes a) (ba_nodes b) &&
-  lN_eqb (ba_peers a) (ba_peers b).
-Definition l2adv_same (a b : l2adv) : bool :=
-  Bool.eqb (la_all a) (la_all b) && lN_eqb (la_nodes a) (la_nodes b) && lN_eqb (la_ifaces a) (la_ifaces b).
-Definition salloc_eqb (a b : salloc) : bool :=
-  (sa_prio a =? sa_prio b) && lN_eqb (sa_nss a) (sa_nss b) && (sa_nsel a =? sa_nsel b).
-Definition pool_eqb (a b : pool) : bool :=
-  (p_name a =? p_name b) && list_eqb prefix_eqb (p_cidrs a) (p_cidrs b) &&
-  Bool.eqb (p_avoid a) (p_avoid b) && Bool.eqb (p_auto a) (p_auto b) &&
-  list_eqb bgpadv_eqb (p_bgp a) (p_bgp b) && list_eqb l2adv_same (p_l2 a) (p_l2 b) &&
-  opt_eqb salloc_eqb (p_alloc a) (p_alloc b).
-Definition out_eqb (a b : pools_out) : bool :=
-  list_eqb pool_eqb (po_pools a) (po_pools b) &&
-  list_eqb (fun x y => (fst x =? fst y) && lN_eqb (snd x) (snd y)) (po_byns a) (po_byns b) &&
-  lN_eqb (po_bysel a) (po_bysel b).
-
 Definition id_iter (l : list pool) : list pool := l.
-Definition bfd_eqb (a b : bfd) : bool :=
-  (b_name a =? b_name b) && oN_eqb (b_rx a) (b_rx b) && oN_eqb (b_tx a) (b_tx b) && oN_eqb (b_detect a) (b_detect b) &&
-  oN_eqb (b_echoint a) (b_echoint b) && oN_eqb (b_minttl a) (b_minttl b) && Bool.eqb (b_echo a) (b_echo b) &&
-  Bool.eqb (b_passive a) (b_passive b).
-Definition fconfig_eqb (a b : fconfig) : bool :=
-  out_eqb (fc_pools a) (fc_pools b) && list_eqb peer_eqb (fc_peers a) (fc_peers b) &&
-  list_eqb bfd_eqb (fc_bfds a) (fc_bfds b) && (fc_extras a =? fc_extras b).
 
 Definition case_ok (c : ccase) : bool :=
   match c with
